@@ -17,6 +17,8 @@ def sl(xs, a, b):
     return tuple(xs[a:b])
 def pre(xs, b):
     return tuple(xs[:b])
+def srt(xs, a):
+    return tuple(sorted(xs, reverse=True)) if a % 2 else tuple(sorted(xs))
 def enum(xs, a):
     out = []
     for i, v in enumerate(xs, a):
@@ -34,6 +36,7 @@ cap = 4
 xs = [z3.Int(f'x{i}') for i in range(cap)]
 n, a, b = z3.Int('n'), z3.Int('a'), z3.Int('b')
 bad = 0
+VALS = [10 + (i * 7) % 5 for i in range(cap)]
 
 
 def concrete(out, m):
@@ -45,6 +48,7 @@ for fn, args, ranges, ref in (
         ('rot', [a], lambda: [(aa, 0) for aa in range(-6, 7)], lambda l, aa, bb: (lambda d: (d.rotate(aa), list(d))[1])(collections.deque(l))),
         ('sl', [a, b], lambda: [(aa, bb) for aa in range(-6, 7) for bb in range(-6, 7)], lambda l, aa, bb: l[aa:bb]),
         ('pre', [b], lambda: [(0, bb) for bb in range(-6, 7)], lambda l, aa, bb: l[:bb]),
+        ('srt', [a], lambda: [(aa, 0) for aa in (0, 1)], lambda l, aa, bb: sorted(l, reverse=bool(aa % 2))),
         ('enum', [a], lambda: [(aa, 0) for aa in range(-3, 4)], lambda l, aa, bb: [i * 100 + v for i, v in enumerate(l, aa)])):
     I = Interp(src)
     ctx = Ctx()
@@ -54,10 +58,10 @@ for fn, args, ranges, ref in (
     for ln in range(cap + 1):
         for aa, bb in ranges():
             s = z3.Solver()
-            s.add(ctx.pc, n == ln, a == aa, b == bb, *[xs[i] == 10 + i for i in range(cap)])
+            s.add(ctx.pc, n == ln, a == aa, b == bb, *[xs[i] == VALS[i] for i in range(cap)])
             assert s.check() == z3.sat
             got = concrete(out, s.model())
-            want = list(ref([10 + i for i in range(ln)], aa, bb))
+            want = list(ref([VALS[i] for i in range(ln)], aa, bb))
             if got != want:
                 bad += 1
                 print('MISMATCH', fn, ln, aa, bb, got, want)
